@@ -20,6 +20,7 @@ from .core import (Unsupported, PathAbort, Fraction, AList, LTerm, Atom, Conc, F
                    Explorer, is_z3, to_z3, INT)
 from .values import *  # noqa
 from . import builtins_model as bm
+from .interp import LoopEffect
 
 
 class Recorder:
@@ -227,6 +228,20 @@ class Source:
             return (a, b), binds
         raise Unsupported(self.kind)
 
+    def plain_value_at(self, I, k):
+        """the loop variable for a known index k (no bound constants)"""
+        if self.kind == "plain":
+            return self.term.new_member(core.TRUE, k).elem
+        if self.kind == "enumerate":
+            return (bm.arith(I, "+", k, self.start) if self.start != 0 else k, self.term.new_member(core.TRUE, k).elem)
+        if self.kind == "range":
+            return bm.arith(I, "+", k, self.start) if self.start != 0 else k
+        if self.kind == "adjzip":
+            return (self.term.new_member(core.TRUE, k).elem, self.term.new_member(core.TRUE, k + 1).elem)
+        if self.kind == "zip":
+            return (self.term.new_member(core.TRUE, k).elem, self.term2.new_member(core.TRUE, k).elem)
+        raise Unsupported(self.kind)
+
     def register(self, I, j, cond=core.TRUE):
         if self.kind in ("plain", "enumerate"):
             self.term.new_member(cond, j)
@@ -381,7 +396,7 @@ class BodyPath:
         self.note = note
 
 
-def explore_body(I, src, run_body, acc_names, poisoned, env, want_updates=()):
+def explore_body(I, src, run_body, acc_names, poisoned, env, want_updates=(), tolerate_break_effects=False):
     """Explore the loop body for a generic index j; returns (jvar, [BodyPath])."""
     parent = I.ctx
     sterm = source_term(I, src)
@@ -389,8 +404,7 @@ def explore_body(I, src, run_body, acc_names, poisoned, env, want_updates=()):
     parent.ground()
     # snapshot of the (shared) term registries so that child-path members/facts can be rolled back
     terms = list(parent.terms)
-    snap = [(t, len(t.members), len(t.all_facts), len(t.pair_facts), len(t.adj_facts),
-             len(getattr(t, "_mapped", []))) for t in terms]
+    snap = core.snapshot_terms(terms)
     results = []
     jname = []
     bindl = []
@@ -398,14 +412,7 @@ def explore_body(I, src, run_body, acc_names, poisoned, env, want_updates=()):
     saved_depth = I.call_depth
 
     def restore():
-        for (t, nm, na, np_, nj, nmap) in snap:
-            t._mkeys = None
-            del t.members[nm:]
-            del t.all_facts[na:]
-            del t.pair_facts[np_:]
-            del t.adj_facts[nj:]
-            if hasattr(t, "_mapped"):
-                del t._mapped[nmap:]
+        core.restore_terms(snap)
 
     def one_path(child):
         I.ctx = child
@@ -428,12 +435,18 @@ def explore_body(I, src, run_body, acc_names, poisoned, env, want_updates=()):
         value, binds = src.value_at(I, j)
         bindl.append(binds)
         nguard0 = len(child.guard)
+        I.loop_effects = [] if tolerate_break_effects else None
         try:
             run_body(cenv, value, recs)
+            if I.loop_effects:
+                raise Unsupported("mutation of loop-external state inside an abstracted loop body")
         except ContinueEx:
-            pass
+            if I.loop_effects:
+                raise Unsupported("mutation of loop-external state inside an abstracted loop body")
         except BreakEx:
             kind = "break"
+        except LoopEffect:
+            kind = "break"  # effectful iteration: must turn out to break when re-executed (R-FIND)
         except Raise as r:
             kind, exc = "raise", r
         except ReturnEx:
@@ -457,6 +470,7 @@ def explore_body(I, src, run_body, acc_names, poisoned, env, want_updates=()):
         I.ctx = parent
         I.frozen_owner = saved_frozen
         I.call_depth = saved_depth
+        I.loop_effects = None
     if not jname:
         return None, sterm, [], []
     j = jname[0]
@@ -477,7 +491,7 @@ def explore_body(I, src, run_body, acc_names, poisoned, env, want_updates=()):
     return j, sterm, results, binds
 
 
-def apply_paths(I, src, sterm, j, results, acc_boxes, env, target_names, note="", binds=()):
+def apply_paths(I, src, sterm, j, results, acc_boxes, env, target_names, note="", binds=(), rerun=None):
     """Continue the parent path after a body exploration."""
     ctx = I.ctx
     if j is None:
@@ -539,6 +553,13 @@ def apply_paths(I, src, sterm, j, results, acc_boxes, env, target_names, note=""
                 sterm.all_facts.append((b, (lambda elem, idx, gq=gq, k=k: z3.Implies(idx < k, z3.Not(inst(gq, idx)))),
                                         "before-found"))
             if ctx.decide(b, "loop%s breaks" % note):
+                if rerun is not None:
+                    # run the breaking iteration for index k in this context (its effects may be arbitrary)
+                    try:
+                        rerun(k)
+                    except BreakEx:
+                        return "broke"
+                    raise core.EngineError("R-FIND: the re-executed iteration did not break")
                 for n, outs in bp.outs.items():
                     for o in outs:
                         bm.list_append(I, acc_boxes[n], inst_value(o, k))
@@ -591,7 +612,75 @@ def apply_paths(I, src, sterm, j, results, acc_boxes, env, target_names, note=""
     return "done"
 
 
+def is_erase_loop(st):
+    """for x in M:  <recv>.deleteEntry(x)"""
+    if len(st.body) != 1 or not isinstance(st.target, ast.Name):
+        return None
+    b = st.body[0]
+    if not (isinstance(b, ast.Expr) and isinstance(b.value, ast.Call)):
+        return None
+    f = b.value.func
+    if not (isinstance(f, ast.Attribute) and f.attr == "deleteEntry" and len(b.value.args) == 1
+            and not b.value.keywords and isinstance(b.value.args[0], ast.Name)
+            and b.value.args[0].id == st.target.id):
+        return None
+    return f.value
+
+
+def erase_loop(I, st, env, it, recv_node):
+    """R-ERASE (lemma erase_filter, lean/Lifting.lean): deleting, one by one, every element of a sub-list
+    M = filter(g, S) from a list B that is the same list as S and has no two equal entries leaves
+    filter(not g, B); no deletion can fail.  Side conditions are proved here, else the loop is unsupported."""
+    from . import listops
+    from .core import Reverse, TRUE
+    ctx = I.ctx
+    recv = I.eval(recv_node, env)
+    if not isinstance(recv, SObj) or not isinstance(recv.attrs.get("_entries"), AList):
+        raise Unsupported("erase loop on %r" % (recv,))
+    # deleteEntry must be the plain pop(index(entry)) the lemma is about: checked against its contract/spec
+    B = recv.attrs["_entries"]
+    M = it.term if isinstance(it, AList) else None
+    if M is None:
+        raise Unsupported("erase loop over %r" % (it,))
+    if isinstance(M, Reverse):
+        M = M.inner
+    M = listops.fuse(I, M) if isinstance(M, FM) else M
+    if not isinstance(M, FM):
+        raise Unsupported("erase loop: the list of entries to delete is not a filter of a known list")
+    consts = [c for c, _ in M.binds]
+    for p in M.paths:
+        if len(p.outs) > 1:
+            raise Unsupported("erase loop: match list is not a filter")
+        if p.outs:
+            parts = [to_z3(x) for x in I.elem_parts(I.coerce_elem(p.outs[0], M.etype))]
+            if len(parts) != len(consts) or not all(a.eq(b) for a, b in zip(parts, consts)):
+                raise Unsupported("erase loop: match list elements are not the original entries")
+    ok, why = listops.same_term(I, M.src, B.term)
+    if not ok:
+        raise Unsupported("erase loop: match list is not derived from the list being modified")
+    # no two entries of B are equal under the entry type's == (tolerant for Interval / Point): this is the
+    # contract's `requires` (flag on the input list); a filtered sub-list of such a list inherits it
+    T = B.term
+    base = T
+    while isinstance(base, FM) and all(len(p.outs) <= 1 for p in base.paths):
+        base = base.src
+    if not getattr(base, "requires_distinct", False):
+        raise Unsupported("erase loop: entries are not known to be pairwise distinguishable (needed by "
+                          "deleteEntry's search by ==); add the precondition to the contract")
+    I.check_mutable(B)
+    if not any(p.outs for p in M.paths):
+        return  # nothing is ever deleted
+    proto = next(p.outs[0] for p in M.paths if p.outs)  # the bound element itself
+    # keep exactly the elements the filter dropped
+    keep_paths = [FMPath(p.guard, [] if p.outs else [proto], p.note) for p in M.paths]
+    B.term = core.mk_fm(I, M.src, M.jvar, keep_paths, M.etype, M.binds)
+    env.vars[st.target.id] = Poison("loop variable after an abstracted loop")
+
+
 def abstract_for(I, st, env, it):
+    recv_node = is_erase_loop(st)
+    if recv_node is not None and isinstance(it, AList) and I.items_of(it) is None:
+        return erase_loop(I, st, env, it, recv_node)
     src = classify_iterable(I, it)
     body = st.body
     assigned = assigned_names(body) | assigned_names([ast.Assign(targets=[st.target], value=ast.Constant(0))])
@@ -611,9 +700,18 @@ def abstract_for(I, st, env, it):
         I.exec_block(body, cenv)
 
     j, sterm, results, binds = explore_body(I, src, run_body, accs, poisoned, env,
-                                            want_updates=assigned)
+                                            want_updates=assigned, tolerate_break_effects=True)
     boxes = {n: env.lookup(n) for n in accs}
-    apply_paths(I, src, sterm, j, results, boxes, env, assigned, note="@L%d" % st.lineno, binds=binds)
+
+    def rerun(k):
+        value = src.plain_value_at(I, k)
+        I.assign(st.target, value, env)
+        try:
+            I.exec_block(body, env)
+        except ContinueEx:
+            pass
+
+    apply_paths(I, src, sterm, j, results, boxes, env, assigned, note="@L%d" % st.lineno, binds=binds, rerun=rerun)
 
 
 # ----------------------------------------------------------------------- comprehensions
